@@ -562,10 +562,10 @@ NOT_DECIDED = {
 }
 
 
-def check(rep, kind, floor, offz, offi, mod):
+def check(rep, kind, floor, offz, offi, mod, only=None, suffix=None):
     """kind 'z' = compression side (struct isal_zstream), 'i' = decompression side (struct inflate_state)"""
     side = 'compression' if kind == 'z' else 'decompression'
-    R = rep.rule('R-ACCT-BALANCE-' + ('DEFLATE' if kind == 'z' else 'INFLATE'),
+    R = rep.rule('R-ACCT-BALANCE-' + (suffix or ('DEFLATE' if kind == 'z' else 'INFLATE')),
                  'every portable C function of the %s side that receives the stream: on every path to every return (path-sensitive, branch decisions remembered, loops merged relationally) '
                  'total_X - next_X and total_X + avail_X (next_X + avail_X where no total exists) equal their entry values, i.e. the three counters of a direction always move by the same amount; '
                  'initialisers may only zero the counters they are documented to zero; a residual over parameters becomes an obligation at each call site; callees that get the stream (incl. asm kernels, '
@@ -577,6 +577,8 @@ def check(rep, kind, floor, offz, offi, mod):
         if a.kind != kind:
             continue
         base = re.sub(r'\.\d+$', '', fn)
+        if only is not None and base not in only:
+            continue
         if base in NOT_DECIDED:
             R.notes.append('%s: not decided - %s' % (base, NOT_DECIDED[base]))
             continue
@@ -615,7 +617,7 @@ def check(rep, kind, floor, offz, offi, mod):
         a.param_resid = param_resid
     # call-site obligations
     for fn, a in sorted(res.items()):
-        if a.kind != kind or re.sub(r'\.\d+$', '', fn) in NOT_DECIDED:
+        if a.kind != kind or re.sub(r'\.\d+$', '', fn) in NOT_DECIDED or (only is not None and re.sub(r'\.\d+$', '', fn) not in only):
             continue
         done = set()
         for i, cal, st, args in a.calls:
